@@ -220,3 +220,43 @@ Lemma coeff_DR X Rho V S t0 x rho v s : DR X t0 x -> DR Rho t0 rho -> DR V t0 v 
 Proof. intros. unfold coeff. dr. assumption. Qed.
 Lemma total_lift_coeff_DR C1 C0 t0 c1 c0 : DR C1 t0 c1 -> DR C0 t0 c0 -> DR (fun t => total_lift_coeff (C1 t) (C0 t)) t0 (total_lift_coeff c1 c0).
 Proof. intros. unfold total_lift_coeff. dr. Qed.
+
+(* ---------------- the chain def_mesh, alpha, beta, v, circulations -> residual of the VLM system (one surface) ----------------
+   composition of the component theorems above: the curve-form statements take the outputs of upstream components
+   as their input curves, which is the chain rule *)
+Section ChainD.
+  Variables (npx npy : nat) (sym left : bool).
+  Variables (Al Be V : R -> R) (M : R -> nat -> nat -> nat -> R) (C : R -> nat -> R) (t0 : R).
+  Variables (al be v : dual R) (m : nat -> nat -> nat -> dual R) (c : nat -> dual R).
+  Hypotheses (HA : DR Al t0 al) (HB : DR Be t0 be) (HV : DR V t0 v) (HM : DR3 M t0 m) (HC : DR1 C t0 c).
+  Hypothesis Hnpy : (0 < npy)%nat.
+  (* admissible geometry: panels of non-zero area; no collocation point on (the extension of) a vortex segment or wake filament *)
+  Hypothesis Hpanels : forall i j, (i < npx)%nat -> (j < npy)%nat -> 0 < sq3 (g_ncross (M t0) i j).
+  Hypothesis Hring : forall b e i j, ring_ok npx (fun t => chain_vectors npx npy sym left (M t)) t0 b e i j.
+  Hypothesis Htrail : forall b e j, trail_ok npx Al (fun t => chain_vectors npx npy sym left (M t)) t0 b e j.
+
+  Lemma chain_vectors_DR4 : DR4 (fun t => chain_vectors npx npy sym left (M t)) t0 (chain_vectors npx npy sym left m).
+  Proof.
+    intros e i j d. unfold chain_vectors. apply get_vectors_DR.
+    - intros e' d'. apply coll_pts_DR. exact HM.
+    - intros i' j' d'. apply (vortex_mesh_DR npx npy sym false left (fun _ => o0) (fun _ => o0)); [apply DR_o0 | apply DR_o0 | exact HM].
+  Qed.
+  Lemma chain_velm_DR p q d : DR (fun t => chain_velm npx npy sym left (Al t) (M t) p q d) t0 (chain_velm npx npy sym left al m p q d).
+  Proof.
+    unfold chain_velm.
+    apply (vel_mtx_DR npx npy sym false (negb left) Al (fun t => chain_vectors npx npy sym left (M t)) t0 al (chain_vectors npx npy sym left m) HA chain_vectors_DR4 Hring Htrail).
+  Qed.
+  Lemma chain_normals_DR p d : (p < npx * npy)%nat -> DR (fun t => chain_normals npy (M t) p d) t0 (chain_normals npy m p d).
+  Proof.
+    intros Hp. unfold chain_normals. apply g_normals_DR; [exact HM|]. apply Hpanels.
+    - apply Nat.div_lt_upper_bound; lia.
+    - apply Nat.mod_upper_bound; lia.
+  Qed.
+  Lemma chain_aic_DR p q : (p < npx * npy)%nat -> DR (fun t => chain_aic npx npy sym left (Al t) (M t) p q) t0 (chain_aic npx npy sym left al m p q).
+  Proof. intros Hp. unfold chain_aic, aic_mtx. dr; first [apply chain_velm_DR | apply chain_normals_DR; exact Hp]. Qed.
+  Lemma chain_rhs_DR p : (p < npx * npy)%nat -> DR (fun t => chain_rhs npy (Al t) (Be t) (V t) (M t) p) t0 (chain_rhs npy al be v m p).
+  Proof. intros Hp. unfold chain_rhs, aic_rhs. dr; first [apply freestream_DR; assumption | apply chain_normals_DR; exact Hp]. Qed.
+  Theorem chain_residual_DR p : (p < npx * npy)%nat ->
+    DR (fun t => chain_residual npx npy sym left (Al t) (Be t) (V t) (M t) (C t) p) t0 (chain_residual npx npy sym left al be v m c p).
+  Proof. intros Hp. unfold chain_residual, solve_residual. dr; first [apply chain_aic_DR; exact Hp | apply chain_rhs_DR; exact Hp]. Qed.
+End ChainD.
